@@ -179,6 +179,26 @@ def implPhrase (scoring : Bool) (docs : List ADoc) (f : Nat) (terms : List (Nat 
      else PhraseSlop.phraseOff (costOrder docs d f terms) slop)
   else false
 
+/-! ### fuzzy prefix mode as implemented
+
+`levenshtein_automata::build_prefix_dfa` documents "the minimum distance of the prefixes of the
+test string" but freezes a match only in states from which no shorter distance can be reached
+(`ParametricDFA::is_prefix_sink`); a prefix within distance that could still improve is
+forgotten when the following characters make it worse. In terms of the Wagner–Fischer table
+`D[i][j] = dist(c[:i], q[:j])`: the candidate is accepted iff some row `i` has
+`D[i][m] ≤ d ∧ ∀ j < m, D[i][m] ≤ D[i][j]`, or `D[n][m] ≤ d`.
+-- mirrors: levenshtein_automata-0.2.1/src/parametric_dfa.rs::is_prefix_sink (external crate) -/
+def prefixSinkMatch (transp : Bool) (c q : List Nat) (dmax : Nat) : Bool :=
+  let m := q.length
+  (levTable transp c q).any (fun row =>
+      let last := row.getD m 0
+      decide (last ≤ dmax) && (row.take m).all (fun v => decide (last ≤ v)))
+    || decide (editDistance transp c q ≤ dmax)
+
+def implFuzzyMatch (t : Bytes) (dmax : Nat) (transp pre : Bool) (cand : Bytes) : Bool :=
+  if pre then prefixSinkMatch transp (utf8Decode cand) (utf8Decode t) dmax
+  else fuzzyMatch t dmax transp false cand
+
 /-- a leaf classifier says which scorer *type* a leaf weight returns on a segment -/
 abbrev LeafCls := (scoring boosted : Bool) → Leaf → List ADoc → STree
 
@@ -202,6 +222,9 @@ def leafTree : LeafCls := fun scoring boosted l docs =>
     if ds.isEmpty then .empty
     else if ds.length == docs.length then (if boosted then .wrapped .all else .all)
     else .wrapped (.leaf ds false)
+  | .fuzzy f t dm tr pre =>
+    .wrapped (.leaf (docsWhere docs (fun d =>
+      d.postings.any (fun p => p.field == f && implFuzzyMatch t dm tr pre p.term))) false)
   | _ => .wrapped (.leaf ds false)
 
 mutual
@@ -243,7 +266,8 @@ def compileTop (cls : LeafCls) (scoring : Bool) (docs : List ADoc) : Query → S
 
 `singleOk`: DESIGN F4 — the `weights.len() == 1` shortcut of `BooleanWeight::scorer` ignores
 `minimum_number_should_match`; `leafOk`: DESIGN S6 — phrases of ≥ 3 terms with slop ≥ 1 are
-evaluated by two different greedy algorithms. The driver can evaluate both on any query. -/
+evaluated by two different greedy algorithms; fuzzy prefix mode is evaluated by an automaton that
+forgets improvable prefix matches. The driver can evaluate the hypotheses on any query. -/
 
 def singleOk (cs : List (Occur × Query)) (msm : Nat) : Bool :=
   match cs with
@@ -256,6 +280,7 @@ def singleOk (cs : List (Occur × Query)) (msm : Nat) : Bool :=
 
 def leafOk : Leaf → Bool
   | .phrase _ terms slop => slop == 0 || terms.length == 2
+  | .fuzzy _ _ _ _ pre => !pre
   | _ => true
 
 mutual
